@@ -2271,7 +2271,10 @@ def strategies():
             c = draw(st.sampled_from(['1', '2', '4', '9', '16', '1/4']))
             e = draw(st.sampled_from(['x ^ %(p)s', '%(c)s - x ^ %(p)s', 'x ^ %(p)s + %(c)s', '%(c)s * x ^ %(p)s', '(x ^ %(p)s) ^ 2',
                                       '-(x ^ %(p)s)', 'x ^ %(p)s - x ^ 2', '(x - 1) ^ %(p)s', 'x ^ %(p)s * x', '(2 * x) ^ %(p)s',
-                                      '(-x) ^ %(p)s', '%(c)s - (x ^ 2) ^ %(p)s', 'x ^ 2 * x ^ %(p)s'])) % {'p': p, 'c': c}
+                                      '(-x) ^ %(p)s', '%(c)s - (x ^ 2) ^ %(p)s', 'x ^ 2 * x ^ %(p)s',
+                                      'x * x', 'x * (x - 1)', 'x + x ^ %(p)s', 'x * x * x', '1 / (x + 4)', 'abs(x)', 'x / (x + 4)',
+                                      '(x + 1) * (x - 1)', 'x - x ^ %(p)s', 'sqrt(x + 4)', 'exp(x)', 'abs(x) ^ %(p)s', '%(c)s / (x + 4) ^ %(p)s',
+                                      'abs(x - 1)', '-x * x', 'exp(-x ^ 2)', 'x ^ %(p)s / %(c)s', '(x + 4) ^ (1/2) * x'])) % {'p': p, 'c': c}
             pts = [lo, hi, '0', str((Fraction(lo) + Fraction(hi)) / 2)]
             return {'kind': 'bounds', 'endpoint': True, 'e': e, 'conds': cs, 'draws': [{'x': q} for q in pts]}
         return {'kind': 'bounds', 'e': e, 'conds': cs, 'seeds': draw(st.lists(st.integers(0, 2 ** 20), min_size=6, max_size=6))}
